@@ -14,6 +14,12 @@ Lemma subs_mark m f : mb_subs (mark_present m f) = mb_subs m.
 Proof. destruct m; reflexivity. Qed.
 Lemma groups_mark m f : mb_groups (mark_present m f) = mb_groups m.
 Proof. destruct m; reflexivity. Qed.
+Lemma fields_mark m f : mb_fields (mark_present m f) = mb_fields m.
+Proof. destruct m; reflexivity. Qed.
+Lemma fields_afd m f p v : mb_fields (add_field_decoder m f p v) = map_insert f v (mb_fields m).
+Proof. destruct m; reflexivity. Qed.
+Lemma map_insert_nonempty {A} k (v : A) l : map_insert k v l <> [].
+Proof. destruct l as [|[k' v'] r]; cbn [map_insert]; [discriminate|]. destruct (k <? k'); [discriminate|]. destruct (k =? k'); discriminate. Qed.
 Lemma fp_afd m f p v : mb_fp (add_field_decoder m f p v) = mb_fp m.
 Proof. destruct m; reflexivity. Qed.
 Lemma pos_afd m f p v : mb_pos (add_field_decoder m f p v) = pos_insert p (f, v) (mb_pos m).
@@ -260,19 +266,19 @@ Lemma dg_loop_S fuel gm els off :
     match dg_elem c cp from fsize fuel (create_group gm false) 0 off with
     | Exc e => Exc e | OOB s => OOB s | Diverge => Diverge | Fuel => Fuel
     | Ok (grp, pos, off', why) =>
-      match find_missing (mb_fp grp) with
-      | Some f => Exc (EMissingMandatory f)
-      | None =>
-        let els' := els ++ [grp] in
-        match why with
-        | SForeign => Ok (els', off')
-        | SEnd => Ok (els', off')
-        | SDup => dg_loop c cp from fsize fuel gm els' off'
-        | SStall =>
-            match find_missing (g_traits gm) with
-            | Some f => Exc (EMissingMandatory f)
-            | None => Diverge
-            end
+      match mb_fields grp with
+      | [] => Ok (els, off')
+      | _ :: _ =>
+        match find_missing (mb_fp grp) with
+        | Some f => Exc (EMissingMandatory f)
+        | None =>
+          let els' := els ++ [grp] in
+          match why with
+          | SForeign => Ok (els', off')
+          | SEnd => Ok (els', off')
+          | SDup => dg_loop c cp from fsize fuel gm els' off'
+          | SStall => Ok (els', off')
+          end
         end
       end
     end
@@ -300,14 +306,15 @@ Definition elem_inv (sg : gmeta) (grp : mbase) (pos : N) : Prop :=
   (forall f, In f (pos_tags grp) <-> present_in (mb_fp grp) f) /\
   (pos = 0 -> mb_pos grp = []) /\
   (pos <> 0 -> exists f v tr, In (1, (f, v)) (mb_pos grp) /\ find_trait (mb_fp grp) f = Some tr /\ getPos tr = 1) /\
-  elems_sound grp.
+  elems_sound grp /\
+  (mb_fields grp <> [] -> pos <> 0).
 
 Lemma elem_inv_add sg grp pos tv tr v :
   elem_inv sg grp pos -> find_trait (mb_fp grp) tv = Some tr -> t_present tr = false ->
   (pos = 0 -> getPos tr = 1) ->
   elem_inv sg (mark_present (add_field_decoder grp tv (pos + 1) v) tv) (pos + 1).
 Proof.
-  intros (Hst & Hsubs & Hnd & Hiff & H0 & Hfirst & Hdeep) Hf Hnp Hp1.
+  intros (Hst & Hsubs & Hnd & Hiff & H0 & Hfirst & Hdeep & _) Hf Hnp Hp1.
   assert (Hnotin : ~ In tv (pos_tags grp)).
   { intros Hin. apply Hiff in Hin. destruct Hin as (tr' & Hf' & Hp'). congruence. }
   unfold elem_inv. rewrite fp_mark, fp_afd, subs_mark, subs_afd.
@@ -330,13 +337,14 @@ Proof.
         rewrite <- Hg0. apply getPos_strip. apply strip_set_present.
       + exists f0, v0, tr0. split; [apply in_pos_insert; right; assumption|].
         split; [rewrite find_upd_other by assumption; assumption | assumption]. }
-  apply elems_sound_add. assumption.
+  split; [apply elems_sound_add; assumption | intros _; lia].
 Qed.
 
 Lemma fp_wg m v : mb_fp (with_groups m v) = mb_fp m. Proof. destruct m; reflexivity. Qed.
 Lemma pos_wg m v : mb_pos (with_groups m v) = mb_pos m. Proof. destruct m; reflexivity. Qed.
 Lemma subs_wg m v : mb_subs (with_groups m v) = mb_subs m. Proof. destruct m; reflexivity. Qed.
 Lemma groups_wg m v : mb_groups (with_groups m v) = v. Proof. destruct m; reflexivity. Qed.
+Lemma fields_wg m v : mb_fields (with_groups m v) = mb_fields m. Proof. destruct m; reflexivity. Qed.
 
 Lemma map_find_In {A} k (l : list (N * A)) v : map_find k l = Some v -> In (k, v) l.
 Proof.
@@ -373,21 +381,22 @@ Proof.
   split; [reflexivity|]. split; [reflexivity|]. split; [constructor|]. split.
   { intros f. split; [intros []|]. intros H. exfalso. exact (wf_elem_not_present _ _ _ Hwf H). }
   split; [reflexivity|]. split; [intros H; congruence|].
+  split; [|cbn [mb_fields]; congruence].
   unfold elems_sound. apply deep_unfold. cbn [mb_groups]. unfold deep_groups. cbn [andb]. constructor.
 Qed.
 
 Lemma elem_inv_same sg m m' pos :
-  mb_fp m' = mb_fp m -> mb_pos m' = mb_pos m -> mb_subs m' = mb_subs m -> elems_sound m' ->
-  elem_inv sg m pos -> elem_inv sg m' pos.
+  mb_fp m' = mb_fp m -> mb_pos m' = mb_pos m -> mb_subs m' = mb_subs m -> mb_fields m' = mb_fields m ->
+  elems_sound m' -> elem_inv sg m pos -> elem_inv sg m' pos.
 Proof.
-  intros Hfp Hpos Hsubs Hd (H1 & H2 & H3 & H4 & H5 & H6 & _).
-  unfold elem_inv, pos_tags in *. rewrite Hfp, Hpos, Hsubs. repeat split; try assumption; apply H4.
+  intros Hfp Hpos Hsubs Hfl Hd (H1 & H2 & H3 & H4 & H5 & H6 & _ & H8).
+  unfold elem_inv, pos_tags in *. rewrite Hfp, Hpos, Hsubs, Hfl. repeat split; try assumption; apply H4.
 Qed.
 
 Lemma elem_inv_sound sg grp pos :
   elem_inv sg grp pos -> pos <> 0 -> find_missing (mb_fp grp) = None -> ES sg grp.
 Proof.
-  intros (H1 & H2 & H3 & H4 & H5 & H6 & H7) Hne Hm. split; [|assumption].
+  intros (H1 & H2 & H3 & H4 & H5 & H6 & H7 & _) Hne Hm. split; [|assumption].
   unfold elem_sound. repeat split; try assumption; try apply H4. apply H6; assumption.
 Qed.
 
@@ -404,7 +413,8 @@ Definition stmtB (fuel : nat) : Prop := forall gm els off els' off',
 Definition stmtC (fuel : nat) : Prop := forall m f off m' off',
   subs_wf c (mb_subs m) -> elems_sound m ->
   decode_group c cp from fsize fuel m f off = Ok (m', off') ->
-  mb_fp m' = mb_fp m /\ mb_pos m' = mb_pos m /\ mb_subs m' = mb_subs m /\ elems_sound m'.
+  mb_fp m' = mb_fp m /\ mb_pos m' = mb_pos m /\ mb_subs m' = mb_subs m /\ mb_fields m' = mb_fields m /\
+  elems_sound m'.
 
 Lemma stepA fuel : stmtA fuel -> stmtC fuel -> stmtA (S fuel).
 Proof.
@@ -415,7 +425,7 @@ Proof.
   destruct (tok_at cp from fsize off) as [tag val result | tag val | s]; [| |discriminate].
   2:{ injection H as <- <- <- <-. split; [assumption|]. intros E. split; [assumption | left; reflexivity]. }
   set (tv := fast_atoi_u32 tag mod 65536) in *.
-  destruct Hinv as (Hst & Hsubs & Hnd & Hiff & H0 & Hfirst & Hdeep).
+  destruct Hinv as (Hst & Hsubs & Hnd & Hiff & H0 & Hfirst & Hdeep & Hfl).
   assert (Hinv : elem_inv sg grp pos) by (unfold elem_inv; auto 10).
   destruct (find_trait (mb_fp grp) tv) as [tr|] eqn:Hf.
   2:{ destruct (pos =? 0) eqn:Ep; [discriminate|]. injection H as <- <- <- <-. split; [assumption|].
@@ -435,8 +445,8 @@ Proof.
   - destruct (decode_group c cp from fsize fuel g1 tv (off + result)) as [[g2 off2]| | | |] eqn:HD; try discriminate.
     assert (Hsw : subs_wf c (mb_subs g1)).
     { destruct Hinv1 as (_ & Hs1 & _). rewrite Hs1. intros f0 sg0. apply (wf_table_unfold _ _ _ Hwf). }
-    destruct (IHC g1 tv (off + result) g2 off2 Hsw ltac:(apply Hinv1) HD) as (E1 & E2 & E3 & E4).
-    pose proof (elem_inv_same sg g1 g2 (pos + 1) E1 E2 E3 E4 Hinv1) as Hinv2.
+    destruct (IHC g1 tv (off + result) g2 off2 Hsw ltac:(apply Hinv1) HD) as (E1 & E2 & E3 & E5 & E4).
+    pose proof (elem_inv_same sg g1 g2 (pos + 1) E1 E2 E3 E5 E4 Hinv1) as Hinv2.
     destruct (IHA sg g2 (pos + 1) off2 grp' pos' off' why Hwf Hinv2 H) as [HA HB].
     split; [assumption|]. intros E. destruct (HB E) as [HB' _]. lia.
   - destruct (IHA sg g1 (pos + 1) (off + result) grp' pos' off' why Hwf Hinv1 H) as [HA HB].
@@ -452,17 +462,19 @@ Proof.
   destruct (dg_elem c cp from fsize fuel (create_group gm false) 0 off) as [[[[grp pos'] off1] why]| | | |] eqn:HE;
     try discriminate.
   destruct (IHA gm _ 0 off grp pos' off1 why Hwf (elem_inv_init c gm Hwf) HE) as [Hinv Hz].
+  destruct (mb_fields grp) as [|fl0 flr] eqn:Hfl.
+  { injection H as <- <-. assumption. }
   destruct (find_missing (mb_fp grp)) eqn:HM; [discriminate|].
-  assert (Hne : why <> SStall -> pos' <> 0).
-  { intros Hw E. destruct (Hz E) as [_ [Hs|Hs]]; congruence. }
-  assert (Hok : why <> SStall -> Forall (ES gm) (els ++ [grp])).
-  { intros Hw. apply Forall_app. split; [assumption|]. constructor; [|constructor].
+  assert (Hne : pos' <> 0).
+  { destruct Hinv as (_ & _ & _ & _ & _ & _ & _ & Hf). apply Hf. rewrite Hfl. discriminate. }
+  assert (Hok : Forall (ES gm) (els ++ [grp])).
+  { apply Forall_app. split; [assumption|]. constructor; [|constructor].
     eapply elem_inv_sound; eauto. }
   destruct why.
-  - injection H as <- <-. apply Hok. discriminate.
-  - destruct (find_missing (g_traits gm)); discriminate.
-  - eapply IHB; [exact Hwf | apply Hok; discriminate | exact H].
-  - injection H as <- <-. apply Hok. discriminate.
+  - injection H as <- <-. apply Hok.
+  - injection H as <- <-. apply Hok.
+  - eapply IHB; [exact Hwf | apply Hok | exact H].
+  - injection H as <- <-. apply Hok.
 Qed.
 
 Lemma stepC fuel : stmtB fuel -> stmtC (S fuel).
@@ -485,8 +497,8 @@ Proof.
   destruct (dg_loop c cp from fsize fuel gm els0 off) as [[els off1]| | | |] eqn:HL; try discriminate.
   injection H as <- <-.
   pose proof (IHB gm els0 off els off1 (Hsw _ _ HS) Hels0 HL) as Hels.
-  rewrite fp_wg, pos_wg, subs_wg. unfold m1 at 1 2 3. rewrite fp_wg, pos_wg, subs_wg.
-  split; [reflexivity|]. split; [reflexivity|]. split; [reflexivity|].
+  rewrite fp_wg, pos_wg, subs_wg, fields_wg. unfold m1 at 1 2 3 4. rewrite fp_wg, pos_wg, subs_wg, fields_wg.
+  split; [reflexivity|]. split; [reflexivity|]. split; [reflexivity|]. split; [reflexivity|].
   unfold elems_sound in *. rewrite deep_unfold in *. rewrite subs_wg, groups_wg.
   apply (Forall_map_set (fun k v => Forall (fun e => group_elem (mb_subs m1) k e /\ deep group_elem e) v)).
   - exact Hd1.
@@ -644,7 +656,7 @@ Proof.
   - destruct (groups_inv c cp from fsize gfuel) as (_ & _ & HC).
     assert (Hsw : subs_wf c (mb_subs m)).
     { destruct Hinv as (_ & Hs & _). rewrite Hs. intros f0 sg0. apply (wf_table_unfold _ _ _ Hwf). }
-    destruct (HC m tv off m2 off2 Hsw ltac:(apply Hinv) H) as (E1 & E2 & E3 & E4).
+    destruct (HC m tv off m2 off2 Hsw ltac:(apply Hinv) H) as (E1 & E2 & E3 & _ & E4).
     eapply part_inv_same; eauto.
   - injection H as <- <-. assumption.
 Qed.
